@@ -520,3 +520,61 @@ func VF_C09_lpos() {
 	c09Reply(got, reply, st, lab)
 	c09Post(m, "k", st, "lpos")
 }
+
+// ---- BLPOP / BRPOP under virtual time (ticker every 100 ms, timer at the timeout)
+
+func c09Block(left bool) {
+	vfOpt("timers", 40)
+	m := hNewDb(2)
+	name := "brpop"
+	if left {
+		name = "blpop"
+	}
+	// two keys; each missing / a list / another type
+	s1 := c09Pre(m, "q1", "q1", 2, true)
+	s2 := c09Pre(m, "q2", "q2", 2, true)
+	got := hExec(m, vfCase("cmdcase", name), bs("q1"), bs("q2"), bs("1"))
+	// the first listed key holding a non-empty list serves the pop
+	pick := 0
+	if s1.kind == kHere {
+		pick = 1
+	} else if s2.kind == kHere {
+		pick = 2
+	}
+	w1, w2 := s1, s2
+	if pick == 0 {
+		if s1.kind == kWrong || s2.kind == kWrong {
+			vfLenient("blocking-pop-on-other-type") // the reference answers WRONGTYPE, polling until the timeout is tolerated
+			vfAssert(got.k == rNil || isWrongType(got), name+"-other-type-reply")
+		} else {
+			vfAssert(got.k == rNil, name+"-timeout-reply")
+		}
+	} else {
+		src := s1
+		key := "q1"
+		if pick == 2 {
+			src, key = s2, "q2"
+		}
+		var e []byte
+		rest := src.elems
+		if left {
+			e, rest = rest[0], rest[1:]
+		} else {
+			e, rest = rest[len(rest)-1], rest[:len(rest)-1]
+		}
+		vfAssert(got.k == rArr && len(got.a) == 2, name+"-reply-shape")
+		vfAssert(vfBytesEq(got.a[0].b, bs(key)), name+"-reply-key")
+		vfAssert(got.a[1].k == rBulk && vfBytesEq(got.a[1].b, e), name+"-reply-element")
+		if pick == 1 {
+			w1 = lstate{kind: kHere, elems: rest}
+		} else {
+			w2 = lstate{kind: kHere, elems: rest}
+		}
+	}
+	c09Post(m, "q1", w1, name+"-q1")
+	c09Post(m, "q2", w2, name+"-q2")
+	vfAssert(vfLocksHeld() == 0, name+"-no-lock-left")
+}
+
+func VF_C09_blpop() { c09Block(true) }
+func VF_C09_brpop() { c09Block(false) }
